@@ -249,7 +249,12 @@ class Run:
                     elif not r["evaluations"]:
                         why = f"bounded group {r['group']} evaluated nothing"
                     else:
+                        # obligations of this group that some property listens to (the others are by-products nobody claims, e.g. the
+                        # path text seen through the second implementation)
+                        listened = {p for spec in list(native.GROUPS.values()) + list(native.THOROUGH_GROUPS.values()) for g, ps in spec if g == r["group"] for p in ps}
                         for f in r["failures"]:
+                            if not any(f["obligation"].startswith(p) for p in listened):
+                                continue
                             v = {"unit": f["obligation"].rsplit(".", 1)[0], "obligations": [f["obligation"]], "features": f["features"]}
                             if not findings.match_open(None, v):
                                 why = f"bounded group {r['group']} reports {f['obligation']} (reported as a violation by the property it belongs to)"
